@@ -85,8 +85,9 @@ type Failure struct {
 	Msg    string            `json:"msg"`
 	Model  map[string]string `json:"model"`
 	Path   []int             `json:"path"`
-	Kind   string            `json:"kind"`
-	Status string            `json:"status"`
+	Kind    string            `json:"kind"`
+	Status  string            `json:"status"`
+	Chooses []int             `json:"chooses"`
 }
 
 func (in *Interp) progPanic(msg string) {
@@ -570,6 +571,7 @@ func (in *Interp) exec(fr *Frame, instr ssa.Instruction) {
 			it := &rangeIter{}
 			if xv.M != nil {
 				it.m = xv.M
+				it.snap = append([]mapEntry{}, xv.M.Entries...)
 				for k := range xv.M.Entries {
 					it.remain = append(it.remain, k)
 				}
@@ -1213,9 +1215,49 @@ func (in *Interp) next(fr *Frame, i *ssa.Next) Val {
 		}
 		k = in.ex.DecideFree(in, len(it.remain), "map-order")
 	}
-	e := it.m.Entries[it.remain[k]]
+	e := it.snap[it.remain[k]]
 	it.remain = append(append([]int{}, it.remain[:k]...), it.remain[k+1:]...)
-	return TupleV{BoolConst(true), e.K, deepCopy(e.V)}
+	// entries deleted during the iteration are not produced (Go semantics); values are read from the live map
+	for _, cur := range it.m.Entries {
+		if sameKey(cur.K, e.K) {
+			return TupleV{BoolConst(true), e.K, deepCopy(cur.V)}
+		}
+	}
+	return in.next(fr, i)
+}
+
+func sameKey(a, b Val) bool {
+	switch x := a.(type) {
+	case *Term:
+		y, ok := b.(*Term)
+		return ok && x.S == y.S
+	case string:
+		y, ok := b.(string)
+		return ok && x == y
+	case *ArrayV:
+		y, ok := b.(*ArrayV)
+		if !ok || len(x.E) != len(y.E) {
+			return false
+		}
+		for i := range x.E {
+			if !sameKey(x.E[i], y.E[i]) {
+				return false
+			}
+		}
+		return true
+	case *StructV:
+		y, ok := b.(*StructV)
+		if !ok || len(x.F) != len(y.F) {
+			return false
+		}
+		for i := range x.F {
+			if !sameKey(x.F[i], y.F[i]) {
+				return false
+			}
+		}
+		return true
+	}
+	return false
 }
 
 // ---------------------------------------------------------------------------
